@@ -138,7 +138,7 @@ def write_klatt(spec) -> str:
                 for j, pts in enumerate(it["subs"]):
                     L += [f"{it['name']} [{j + 1}]:", f"    xmin = {lo}{sp}", f"    xmax = {hi}{sp}"]
                     L += pts_rows("    ", pts)
-    return "\n".join(L) + "\n"
+    return "\n".join(L) + ("" if spec.get("nofinalnl") else "\n")
 
 
 def write_long_po(cls, lo, hi, rows) -> str:
@@ -778,6 +778,24 @@ def expected_after(tree0, mods):
     return t, addressed
 
 
+def spec_tree(spec):
+    """the snapshot a correct reader returns for a synthetic source (all spans are the file's span)"""
+    lo, hi = spec["xmin"], spec["xmax"]
+    secs = []
+    for s in spec["secs"]:
+        if s["k"] == "T":
+            secs.append({"k": "T", "name": s["name"], "min": lo, "max": hi, "pts": [list(p) for p in (s["pts"] or [])]})
+        else:
+            secs.append({"k": "C", "name": s["name"], "min": lo, "max": hi, "its": [
+                {"name": it["name"], "subs": [{"name": f"{it['name']} [{j + 1}]", "min": lo, "max": hi, "pts": [list(p) for p in pts]}
+                                               for j, pts in enumerate(it["subs"])]} for it in s["its"]]})
+    return {"min": lo, "max": hi, "secs": secs}
+
+
+def strip_container_spans(tree):
+    return tree
+
+
 def classify(diffs):
     """signature parts for a list of differences; differences that are only a lost sign of zero come last"""
     hard = [d for d in diffs if not is_negzero_diff(d[1], d[2])]
@@ -797,6 +815,11 @@ def oracle_kg(c, r):
             p = trusted_base_problem(x)
             if p:
                 return Failure(dict(sig, clause="trusted-base"), p)
+    # a synthetic source opens to what the independent writer put into it
+    if c["src"] != "ref":
+        d = diff_kg(spec_tree(c["src"]), strip_container_spans(r["tree0"]))
+        if d:
+            return Failure(dict(sig, clause="source-read"), f"opening the source file gives {d[0][0]} = {d[0][2]!r}, the file says {d[0][1]!r}")
     # modify: every addressed value exactly once, nothing else
     exp, addressed = expected_after(r["tree0"], c["mods"])
     d = diff_kg(exp, r["tree1"])
@@ -987,7 +1010,8 @@ def gen_points(rnd, lo, hi, nmax=5):
     while len(ts) < n:
         k = rnd.random()
         t = rnd.uniform(lo, hi) if k < 0.6 else round(rnd.uniform(lo, hi), rnd.randint(1, 4))
-        ts.add(t)
+        if lo <= t <= hi:
+            ts.add(t)
     return [[t, gen_value(rnd)] for t in sorted(ts)]
 
 
@@ -1027,7 +1051,10 @@ def gen_spec(rnd, nmax=5):
         T("bypass")
     if rnd.random() < 0.8:
         T("gain")
-    return {"xmin": lo, "xmax": hi, "style": rnd.choice(["praat", "praat", "plain"]), "secs": secs}
+    spec = {"xmin": lo, "xmax": hi, "style": rnd.choice(["praat", "praat", "plain"]), "secs": secs}
+    if rnd.random() < 0.15:
+        spec["nofinalnl"] = True
+    return spec
 
 
 def addresses(spec_or_ref):
